@@ -39,3 +39,81 @@ def read_returns_decoded(ctx, rule: str):
         all(y[0] == "await" and meth_is(strip(y[1]), "read") for y in leaves(strip(rt[0])[2][-1]))          # (whichever way the timeout is passed on)
     ctx.ob(rule, rd.qual, rd_ok, "_read returns _Packet.decode(await protocol.read())", func=rd.qual, file=rd.module.rel, construct="_read", fail="_read does not return the decoded packet it read")
     return rd_ok
+
+
+V2 = "msmart.lan._LanProtocol"
+V3 = "msmart.lan._LanProtocolV3"
+
+
+def write_reaches_wire(ctx, rule: str, parts=("v2", "v3")):
+    """What LAN.send hands to protocol.write() is what the transport gets: _LanProtocol.write passes its argument, unmodified, to
+    transport.write on every normal way out (and does so when there *is* a transport); _LanProtocolV3.write hands the packet built by the
+    encoder its packet type selects - the encrypted-request encoder for data, the handshake encoder for the handshake - to that write."""
+    from ..absint import EventAnalysis, run_events
+    from ..facts import atoms, simplify
+    from ..terms import is_const, show, subterms
+    prog = ctx.prog
+    w = ctx.fn(f"{V2}.write")
+    sp, dp = w.params[0], w.params[1]
+
+    def wire_call(n):
+        return isinstance(n, ast.Call) and isinstance(n.func, ast.Attribute) and n.func.attr == "write" and isinstance(n.func.value, ast.Attribute) \
+            and n.func.value.attr == "_transport" and isinstance(n.func.value.value, ast.Name) and n.func.value.value.id == sp
+
+    def on_stmt(node, st):
+        if isinstance(node, ast.stmt) and not isinstance(node, (ast.If, ast.While, ast.For, ast.Try, ast.With)) and any(wire_call(c) for c in ast.walk(node)):
+            return ["wire"]
+        return []
+    ea = EventAnalysis(must=True, on_stmt=on_stmt)
+    comp = run_events(prog, w, ea)
+    exits = [st for st, _n in comp.returns] + list(comp.normal)
+    ws = summarize(prog, w)
+    calls = [(n, ws.ta.terms_at.get(n)) for n in ast.walk(w.node) if wire_call(n)]
+    same = bool(calls) and all(t is not None and len(t[2]) == 1 and strip(t[2][0]) == ("param", dp) for _n, t in calls)
+    none_t = ("cmp", "is", ("attr", ("param", sp), "_transport"), ("const", None))
+    on_none = any(none_t in [strip(a) for a in atoms(ws.ta.env_at[s_].pc)] for s_ in ws.ta.env_at
+                  if isinstance(s_, ast.stmt) and not isinstance(s_, (ast.If, ast.While, ast.For, ast.Try, ast.With)) and any(wire_call(c) for c in ast.walk(s_)))
+    ctx.count("wire_writes", len(calls))
+    ctx.ob(rule, w.qual, bool(exits) and all("wire" in st for st in exits) and same and not on_none,
+           "_LanProtocol.write hands its argument to transport.write on every normal way out", func=w.qual, file=w.module.rel, construct="self._transport.write(data)",
+           fail="_LanProtocol.write can return without having written its argument to the transport (or writes something else / only when there is no transport): "
+                "the request never reaches the device and every exchange times out")
+    if "v3" not in parts:
+        return
+    w3 = ctx.fn(f"{V3}.write")
+    s3 = summarize(prog, w3)
+    sp3, dp3 = w3.params[0], w3.params[1]
+    sup = [(n, s3.ta.terms_at.get(n.args[0])) for n in ast.walk(w3.node) if isinstance(n, ast.Call) and isinstance(n.func, ast.Attribute) and n.func.attr == "write"
+           and isinstance(n.func.value, ast.Call) and isinstance(n.func.value.func, ast.Name) and n.func.value.func.id == "super" and n.args]
+    ok3 = len(sup) == 1 and sup[0][1] is not None
+    detail = {}
+    if ok3:
+        t = sup[0][1]
+        ptype = next((("param", p) for p in w3.args if p != dp3), None)
+        pairs = (("ENCRYPTED_REQUEST", f"{V3}._encode_encrypted_request"), ("HANDSHAKE_REQUEST", f"{V3}._encode_handshake_request"))
+        enums = {}
+        for member, _enc in pairs:
+            enums[member] = next((x for x in subterms(t) if x[0] == "enum" and x[2] == member), None) or \
+                next((x for pc, _e, _n, _st in list(s3.raises) + list(s3.returns) for c_, _tr in pc for x in subterms(c_) if x[0] == "enum" and x[2] == member), None)
+        for member, encoder in pairs:
+            if enums[member] is None or ptype is None:
+                ok3 = False
+                detail[member] = "member not tested"
+                continue
+            facts_ = [("cmp", "==", ptype, enums[member])] + [("cmp", "!=", ptype, e_) for m_, e_ in enums.items() if m_ != member and e_ is not None]
+            v = strip(simplify(t, facts_))
+            good = call_is(v, encoder) and strip(v[2][-1]) == ("param", dp3)
+            # ... and the write is reached for this type (its path condition is not refuted by `packet_type == member`)
+            from ..facts import decide
+            stmt_pc = next((s3.ta.env_at[s_].pc for s_ in s3.ta.env_at if isinstance(s_, ast.stmt) and not isinstance(s_, (ast.If, ast.While, ast.For, ast.Try, ast.With))
+                            and any(c is sup[0][0] for c in ast.walk(s_))), ())
+            for c_, tr_ in stmt_pc:
+                d_ = decide(c_, facts_)
+                if d_ is not None and d_ != tr_:
+                    good = False
+                    detail[member] = "write not reached for this type"
+            detail[member] = show(v)[:80]
+            ok3 = ok3 and good
+    ctx.ob(rule, w3.qual, ok3, "_LanProtocolV3.write sends the encrypted-request encoding for data and the handshake encoding for the handshake", func=w3.qual,
+           file=w3.module.rel, construct="super().write(packet)", detail=detail,
+           fail=f"_LanProtocolV3.write does not hand the encoder selected by the packet type to the transport write ({detail}): data or handshake packets go out in the wrong framing / not at all")
